@@ -37,6 +37,8 @@ CONSTANTS
   Prog,      \* <<prog_1, ...>>, prog = sequence of [k |-> "call", d |-> depth, c |-> Nil] / [k |-> "start", d |-> 0, c |-> child]
   Modes,     \* subset of {"fork", "spawn"}: start methods to explore ("spawn" also stands for forkserver)
   CopyStep,  \* TRUE: the else-branch of the start wrapper reads the global once more (`_tty_lock`); FALSE: it does not (`_cell_size_lock`)
+  QInit,     \* subset of BOOLEAN: terminal queries enabled / disabled (disable_queries()) when the root starts
+  MaxToggle, \* how often enable_queries() / disable_queries() may be called afterwards
   Variant    \* "code" = as written; others are seeded regressions used to show the invariants discriminate
 
 Nil == 0 - 1
@@ -58,10 +60,13 @@ VARIABLES
   outq,    \* replies waiting in the tty input queue
   ownok,   \* FALSE once some reader got a reply that was not to its own request
   mode,    \* mode[c]: start method of child c
+  qen,     \* the root process' `_queries_enabled` (configuration; lock_tty is about terminal ACCESS -
+           \* write_tty, read_tty, the urwid screen - so the protocol must not depend on it)
+  ntog,    \* toggles so far
   out      \* last step (self-describing edges); not part of the state identity
 
-vars == <<G, lk, plock, st, th, inq, outq, ownok, mode, out>>
-View == <<G, lk, plock, st, th, inq, outq, ownok, mode>>
+vars == <<G, lk, plock, st, th, inq, outq, ownok, mode, qen, ntog, out>>
+View == <<G, lk, plock, st, th, inq, outq, ownok, mode, qen, ntog>>
 
 -----------------------------------------------------------------------------
 (* Functional core *)
@@ -114,9 +119,10 @@ Init ==
   /\ th = [t \in Threads |-> [ip |-> 1, fr |-> IF Len(Prog[t]) > 0 THEN <<Frame(Prog[t][1])>> ELSE <<>>]]
   /\ inq = <<>> /\ outq = <<>> /\ ownok = TRUE
   /\ mode \in [Children -> Modes]
+  /\ qen \in QInit /\ ntog = 0
   /\ out = [t |-> 0, act |-> "init", req |-> <<>>, got |-> <<>>]
 
-Step(t, act) == out' = [t |-> t, act |-> act, req |-> <<>>, got |-> <<>>]
+Step(t, act) == out' = [t |-> t, act |-> act, req |-> <<>>, got |-> <<>>] /\ UNCHANGED <<qen, ntog>>
 
 (* ---- synchronized call ---- *)
 DoReadA(t) ==
@@ -160,6 +166,7 @@ DoWrite(t) ==
   /\ inq' = Append(inq, Req(t))
   /\ th' = WithTop(t, [Top(t) EXCEPT !.pc = "rd"])
   /\ out' = [t |-> t, act |-> "Write", req |-> Req(t), got |-> <<>>]
+  /\ UNCHANGED <<qen, ntog>>
   /\ UNCHANGED <<G, lk, plock, st, outq, ownok, mode>>
 
 \* ... and read the reply, then leave the body
@@ -169,6 +176,7 @@ DoRead(t) ==
   /\ ownok' = (ownok /\ Head(outq) = Req(t))
   /\ th' = WithTop(t, [Top(t) EXCEPT !.pc = IF Variant = "single" THEN "xa" ELSE "xb"])
   /\ out' = [t |-> t, act |-> "Read", req |-> Req(t), got |-> Head(outq)]
+  /\ UNCHANGED <<qen, ntog>>
   /\ UNCHANGED <<G, lk, plock, st, inq, mode>>
 
 DoRelB(t) ==
@@ -206,7 +214,11 @@ DoSTest(t) ==
   LET p == ProcOf[t]
       g == G[p] IN
   /\ At(t, "st")
-  /\ IF IsThreadLock(g)
+  /\ IF IsThreadLock(g) /\ Variant = "noswapq" /\ p = 0 /\ ~qen
+       THEN \* seeded regression: with queries disabled nothing is swapped and nothing is handed over
+            /\ th' = WithTop(t, [Top(t) EXCEPT !.b = g, !.pc = "sx"])
+            /\ UNCHANGED plock
+       ELSE IF IsThreadLock(g)
        THEN /\ th' = WithTop(t, [Top(t) EXCEPT !.b = g, !.pc = "sn"])
             /\ UNCHANGED plock
        ELSE IF CopyStep
@@ -258,6 +270,7 @@ DoRunWrap(c) ==
   /\ G' = [G EXCEPT ![c] = IF plock[c] # Nil /\ Variant # "norun" THEN plock[c] ELSE G[c]]
   /\ st' = [st EXCEPT ![c] = "run"]
   /\ out' = [t |-> 0, act |-> "RunWrap", req |-> <<c>>, got |-> <<>>]
+  /\ UNCHANGED <<qen, ntog>>
   /\ UNCHANGED <<lk, plock, th, inq, outq, ownok, mode>>
 
 (* ---- the terminal answers requests in FIFO order ---- *)
@@ -266,7 +279,15 @@ DoReply ==
   /\ outq' = Append(outq, Head(inq))
   /\ inq' = Tail(inq)
   /\ out' = [t |-> 0, act |-> "Reply", req |-> Head(inq), got |-> <<>>]
+  /\ UNCHANGED <<qen, ntog>>
   /\ UNCHANGED <<G, lk, plock, st, th, ownok, mode>>
+
+(* ---- enable_queries() / disable_queries() in the root process ---- *)
+DoToggleQ ==
+  /\ ntog < MaxToggle
+  /\ qen' = ~qen /\ ntog' = ntog + 1
+  /\ out' = [t |-> 0, act |-> "ToggleQ", req |-> <<>>, got |-> <<>>]
+  /\ UNCHANGED <<G, lk, plock, st, th, inq, outq, ownok, mode>>
 
 ReadA == \E t \in Threads : DoReadA(t)
 AcqA == \E t \in Threads : DoAcqA(t)
@@ -286,10 +307,11 @@ SRel == \E t \in Threads : DoSRel(t)
 SSpawn == \E t \in Threads : DoSSpawn(t)
 RunWrap == \E c \in Children : DoRunWrap(c)
 Reply == DoReply
+ToggleQ == DoToggleQ
 
 Next ==
   \/ ReadA \/ AcqA \/ ReadB \/ AcqB \/ Nest \/ Write \/ Read \/ RelB \/ RelA
-  \/ SReadA \/ SAcqA \/ STest \/ SNew \/ SCopy \/ SRel \/ SSpawn \/ RunWrap \/ Reply
+  \/ SReadA \/ SAcqA \/ STest \/ SNew \/ SCopy \/ SRel \/ SSpawn \/ RunWrap \/ Reply \/ ToggleQ
 
 Spec == Init /\ [][Next]_vars
 
